@@ -187,18 +187,22 @@ def run(ctx):
         mt = gen.gen_table(rng, 't', max_rows=12)
         run_case(ctx, q, {'t': mt}, 'ast' if idx % 5 else 'text', f'sys/{idx}', mon)
         ctx.count('systematic.executed')
-    rng = ctx.rng('random')
     n_random = ctx.pick(700, 12000)
     for n in range(n_random):
         if ctx.out_of_time():
             break
-        mt = gen.gen_table(rng, 't', max_rows=ctx.pick(12, 40))
-        qg = gen.QueryGen(rng, max_depth=ctx.pick(3, 4))
-        q = qg.aggregate()
-        route = 'text' if rng.random() < 0.12 else 'ast'
-        run_case(ctx, q, {'t': mt}, route, f'random/{n}', mon)
-        ctx.count('random.executed')
+        random_case(ctx, n, mon)
     ledger_part(ctx, mon)
+
+
+def random_case(ctx, n, mon):
+    rng = ctx.rng('random', n)
+    mt = gen.gen_table(rng, 't', max_rows=ctx.pick(12, 40))
+    qg = gen.QueryGen(rng, max_depth=ctx.pick(3, 4))
+    q = qg.aggregate()
+    route = 'text' if rng.random() < 0.12 else 'ast'
+    run_case(ctx, q, {'t': mt}, route, f'random/{n}', mon)
+    ctx.count('random.executed')
 
 
 def ledger_part(ctx, mon):
@@ -280,7 +284,12 @@ def ledger_case(ctx, conn, table, key, other, mon):
 
 
 def replay(ctx, case):
-    print('replay: re-run with the same VERIF_SEED; case was:', case)
+    mon = monitors.install()
+    label = (case or {}).get('label', '')
+    if label.startswith('random/'):
+        random_case(ctx, int(label.split('/')[1]), mon)
+    else:
+        print('replay: systematic/ledger case; re-run the check with the same VERIF_SEED. case:', case)
 
 
 def finalize(merged):
